@@ -68,6 +68,12 @@ fn addr_of<K, V>(ptr: EntryPtr<K, V>) -> usize {
 
 impl<K, V, S> LruCache<K, V, S> {
 
+    /// Number of buckets and address of the data part of the table, without
+    /// walking anything (constant time).
+    pub fn verif_table(&self) -> (usize, usize) {
+        (self.table.buckets(), self.table.data_end().as_ptr() as usize)
+    }
+
     /// Walks the recency list in both directions for at most `limit` steps
     /// each and lists the occupied buckets. A link is only followed if it
     /// points to the seal or to an occupied bucket of the current table, so
